@@ -18,6 +18,16 @@ func runRounds(hp *hPlugin, rounds []any) (outs []any, rr *llo.RetirementReport,
 	return runRoundsFrom(hp, nil, 1, rounds)
 }
 
+// heldRRChanged: did any retirement-report bytes this plugin returned from Reports() change since?
+func (hp *hPlugin) heldRRChanged() bool {
+	for i := range hp.heldRR {
+		if string(hp.heldRR[i]) != hp.heldRRCopy[i] {
+			return true
+		}
+	}
+	return false
+}
+
 // runRoundsFrom starts from a hand-built outcome (through the outcome codec, as a node would read it) when start is non-nil.
 func runRoundsFrom(hp *hPlugin, start any, seq uint64, rounds []any) (outs []any, rr *llo.RetirementReport, herr any) {
 	var cur llo.Outcome
@@ -72,6 +82,9 @@ func runRoundsFrom(hp *hPlugin, start any, seq uint64, rounds []any) (outs []any
 					if err == nil {
 						rr = &d
 					}
+					// the bytes are attested and stored later: they are kept and must still be the same at the end
+					hp.heldRR = append(hp.heldRR, x.ReportWithInfo.Report)
+					hp.heldRRCopy = append(hp.heldRRCopy, string(x.ReportWithInfo.Report))
 				}
 			}
 			cur = o
@@ -119,6 +132,9 @@ func init() {
 		var rrj any
 		if rr != nil {
 			rrj = J{"version": S(rr.ProtocolVersion), "va": vaJ(rr.ValidAfterNanoseconds)}
+		}
+		if hpA.heldRRChanged() || hpB.heldRRChanged() {
+			return clobbered("RetirementReportCodec.Encode (bytes returned by Reports() changed while later rounds ran)")
 		}
 		return resOK(J{"A": outsA, "B": outsB, "rr": rrj})
 	})
